@@ -752,6 +752,29 @@ var exception_message(void);
 
 void mark(var self, var gc, void(*f)(var,void*));
 
+/* Verification hooks: scheduling points for a controlled scheduler.
+** Compiled out unless CELLO_VERIF is defined. */
+
+#ifdef CELLO_VERIF
+enum {
+  CELLO_VP_TYPE_CACHE_READ = 1, CELLO_VP_TYPE_CACHE_WRITE,
+  CELLO_VP_TYPE_SCAN_MEMO,      CELLO_VP_TYPE_OF_LAZY,
+  CELLO_VP_THREAD_KEY_CREATE,   CELLO_VP_THREAD_MAIN_CREATE,
+  CELLO_VP_THREAD_RUN_BEGIN,    CELLO_VP_THREAD_RUN_END,
+  CELLO_VP_GC_SET,   CELLO_VP_GC_REM,   CELLO_VP_GC_MARK,
+  CELLO_VP_GC_SWEEP, CELLO_VP_GC_FINALISE,
+  CELLO_VP_EXC_TRY,  CELLO_VP_EXC_THROW,
+  CELLO_VP_EXC_CATCH, CELLO_VP_EXC_TRY_END,
+  CELLO_VP_TABLE_SET, CELLO_VP_TABLE_REHASH, CELLO_VP_TABLE_MARK,
+  CELLO_VP_ALLOC
+};
+extern void (*cello_verif_point)(int site, const void* addr);
+#define CELLO_VERIF_POINT(S, A) \
+  do { if (cello_verif_point) { cello_verif_point((S), (A)); } } while (0)
+#else
+#define CELLO_VERIF_POINT(S, A)
+#endif
+
 #ifndef CELLO_NGC
 
 extern var GC;
